@@ -34,6 +34,11 @@ type fakeSock struct {
 	errWith bool  // ... or together with it (legal io.Reader behaviour, what crypto/tls does on close_notify)
 	written bytes.Buffer
 	writes  int
+	// a scripted transient fault: socket write number failAt accepts only failKeep bytes and reports an error (what an
+	// expired write deadline on a slow reader does); the socket is usable again afterwards
+	failAt, failKeep int
+	faulted          bool
+	refused          int
 }
 
 func (f *fakeSock) Read(p []byte) (int, error) {
@@ -56,12 +61,24 @@ func (f *fakeSock) Write(p []byte) (int, error) {
 	f.mu.Lock()
 	defer f.mu.Unlock()
 	f.writes++
+	if f.failAt > 0 && f.writes == f.failAt {
+		n := min(f.failKeep, len(p))
+		f.written.Write(p[:n])
+		f.refused += len(p) - n
+		f.faulted = true
+		return n, errTimeout
+	}
 	return f.written.Write(p)
 }
 func (f *fakeSock) snapshot() ([]byte, int) {
 	f.mu.Lock()
 	defer f.mu.Unlock()
 	return append([]byte(nil), f.written.Bytes()...), f.writes
+}
+func (f *fakeSock) hasFaulted() bool {
+	f.mu.Lock()
+	defer f.mu.Unlock()
+	return f.faulted
 }
 func (f *fakeSock) nwrites() int {
 	f.mu.Lock()
@@ -107,6 +124,7 @@ func genSniff(t *rapid.T) SniffCase {
 }
 
 var errOther = errors.New("connection reset by peer")
+var errTimeout = errors.New("write tcp: i/o timeout")
 
 func runSniff(c SniffCase) vkit.Result {
 	data := stream(prefixes[c.Prefix], c.N)
@@ -192,8 +210,10 @@ type WOp struct {
 
 // WriteCase is a sequence of writes at a given flush rate.
 type WriteCase struct {
-	Rate int   `json:"rate"`
-	Ops  []WOp `json:"ops"`
+	Rate     int   `json:"rate"`
+	Ops      []WOp `json:"ops"`
+	FailAt   int   `json:"failat,omitempty"`   // > 0: that socket write fails half way (transient)
+	FailKeep int   `json:"failkeep,omitempty"` // bytes it accepts before failing
 }
 
 func genWrite(t *rapid.T) WriteCase {
@@ -214,11 +234,15 @@ func genWrite(t *rapid.T) WriteCase {
 			c.Ops = append(c.Ops, WOp{rapid.SampledFrom([]int{1, 1, 2, 5, 20, 100, 3000}).Draw(t, "sz")})
 		}
 	}
+	if rapid.IntRange(0, 9).Draw(t, "fault") < 3 {
+		c.FailAt = rapid.IntRange(1, 6).Draw(t, "failAt")
+		c.FailKeep = rapid.SampledFrom([]int{0, 1, 2, 3, 7, 50, 2999}).Draw(t, "failKeep")
+	}
 	return c
 }
 
 func runWrite(c WriteCase) vkit.Result {
-	fs := &fakeSock{}
+	fs := &fakeSock{failAt: c.FailAt, failKeep: c.FailKeep}
 	conn := listener.VerifNewConn(fs, c.Rate)
 	defer conn.Close()
 	var want []byte
@@ -229,11 +253,10 @@ func runWrite(c WriteCase) vkit.Result {
 			p := bytes.Repeat([]byte{byte(i)}, op.W)
 			p[0] = byte(i >> 8)
 			before := fs.nwrites()
-			n, err := conn.Write(p)
-			if err != nil {
+			_, err := conn.Write(p)
+			if err != nil && !fs.hasFaulted() {
 				return vkit.Failf("write %d: %v", i, err)
 			}
-			_ = n
 			want = append(want, p...)
 			if after := fs.nwrites(); after == before {
 				queued++
@@ -261,6 +284,10 @@ func runWrite(c WriteCase) vkit.Result {
 		// whatever has reached the socket so far is a prefix of what was written
 		fs.mu.Lock()
 		got := fs.written.Bytes()
+		if fs.faulted { // bytes the socket refused may be missing from here on: judged at the end
+			fs.mu.Unlock()
+			continue
+		}
 		ok := len(got) <= len(want) && bytes.Equal(got[checked:], want[checked:len(got)])
 		if ok {
 			checked = len(got)
@@ -271,10 +298,28 @@ func runWrite(c WriteCase) vkit.Result {
 		}
 	}
 	conn.Flush()
-	if got, _ := fs.snapshot(); !bytes.Equal(got, want) {
+	got, _ := fs.snapshot()
+	var labels []string
+	if fs.hasFaulted() {
+		// one socket write accepted only part of what it was given. Whether the rest is retried or given up, the client
+		// must not receive anything twice or out of order, and must not miss more than the socket refused
+		j := 0
+		for _, b := range got {
+			for j < len(want) && want[j] != b {
+				j++
+			}
+			if j == len(want) {
+				return vkit.Failf("socket write %d accepted %d bytes and failed: afterwards the socket has received %d bytes that are not the %d bytes written, in order and once each, less what it refused (%d bytes)", c.FailAt, c.FailKeep, len(got), len(want), fs.refused)
+			}
+			j++
+		}
+		if len(got) < len(want)-fs.refused {
+			return vkit.Failf("socket write %d accepted %d bytes and failed: the socket received %d of the %d bytes written although it refused only %d", c.FailAt, c.FailKeep, len(got), len(want), fs.refused)
+		}
+		labels = append(labels, "socket-write-failed-half-way")
+	} else if !bytes.Equal(got, want) {
 		return vkit.Failf("socket received %d bytes, %d were written (queued writes %d, direct writes %d, timer flushes %d)", len(got), len(want), queued, direct, timer)
 	}
-	var labels []string
 	if queued > 0 {
 		labels = append(labels, "path-queued")
 	}
